@@ -162,7 +162,9 @@ class Lemma:
 
 
 class LoopSpec:
-    def __init__(self, inv=(), variant=None, match=None, index=None, modifies=(), seq_fun=None, seq_name=None, iter_name=None):
+    def __init__(self, inv=(), variant=None, match=None, index=None, modifies=(), seq_fun=None, seq_name=None, iter_name=None,
+                 iter_ghost=None):
+        self.iter_ghost = dict(iter_ghost or {})   # ghost assignments run right after the iterable is evaluated (before the invariant is established)
         self.iter_name = iter_name      # name under which the evaluated iterable (a list value) is visible to the invariants
         self.seq_fun, self.seq_name = seq_fun, seq_name
         self.inv = [as_clause(c) for c in inv]
@@ -173,7 +175,7 @@ class LoopSpec:
 
 class Contract:
     def __init__(self, qualname, params, returns=None, ghost_funs=(), macros=(), axioms=(), lets=None,
-                 ghost_vars=None, requires=(), ensures=(), loops=None, hooks=(), yields=(), count=None,
+                 ghost_vars=None, requires=(), ensures=(), loops=None, hooks=(), yields=(), count=None, count_facts=(),
                  raises=None, uses=(), lemmas=(), calls=None, serves=(), pure=False, trusted=False, notes="",
                  closure=None, self_type=None, modifies=(), effects=None, coerce=None,
                  export_lemmas=True, is_property=False, locals=None, frame_check=True, static=False,
@@ -193,6 +195,7 @@ class Contract:
         self.hooks = list(hooks)                  # (when, anchor statement text, ghost assignment text)
         self.yields = [as_clause(c) for c in yields]
         self.count = as_clause(count) if count else None
+        self.count_facts = [as_clause(x) for x in count_facts]   # facts about the final `nyield` when the count is data-dependent
         self.raises = raises or {}                # exc name -> dict(when=clause, post=[clauses])
         self.uses = list(uses)
         self.lemmas = list(lemmas)
